@@ -408,7 +408,7 @@ def r8_whole_chain(ctx):
     if ctx.floor('walker behind Gate::path_iter', len(nx), 1):
         g = nx[0]
         ctx.touch(g)
-        hops = [s for s in g.calls() if s.name.endswith('Connection::next_hop')]
+        hops = [s for s in g.calls() if s.name.endswith('Connection::next_hop')] + [k for k in g.fn_items_passed() if k.endswith('Connection::next_hop')]
         counters = [(b, i) for b in sorted(g.reachable()) for i, st in enumerate(g.stmts(b))
                     if st['k'] == 'assign' and st['p']['pr'] and (classify_write(g, b, i, st) or ('',))[0] in ('inc', 'dec')]
         ctx.check(bool(hops) and not counters, 'walker-follows-next-hop', "the walker advances by Connection::next_hop and keeps no hop counter", g.where(), {'next_hop_calls': len(hops), 'counters': len(counters)})
